@@ -585,6 +585,14 @@ def sec_wrappers(ck):
                     concrete.validate(ck, tr, n=2, seed=ck.seed)
                     half = it.o.le(np.asarray(out["obs"], dtype=object).reshape(-1)[0], Fraction(1, 2))
                     ck.control("control.wrap.rescale.image_not_in_half_range", pre, half)
+    # bit-precise (float32): the DEFAULT environments have non-dyadic limits, so the rescale gradient is rounded; every float32 member of the inner space
+    # must still land inside the advertised space (z3 FloatingPoint: one multiplication and one addition per component)
+    for name in (["mountain_car", "pendulum"] if not ck.thorough else ["mountain_car", "continuous_mountain_car", "acrobot", "pendulum"]):
+        env = envs[name]
+        for rng_ in (((-1.0, 1.0),) if not ck.thorough else ((-1.0, 1.0), (0.0, 1.0), (0.0, 10.0), (-3.0, 7.0))):
+            with ck.section(f"wrap.rescale_fp32.{name}.{rng_}"):
+                w = W.RescaleObservation(env, min=jnp.array(rng_[0]), max=jnp.array(rng_[1]))
+                wrapper_image(ck, f"RescaleObservation[{rng_[0]},{rng_[1]}]@{name}(default limits)", w, env.observation_space, "fp32")
     # action wrappers: what reaches the wrapped environment is a member of ITS action space
     for name, env in (("pendulum", Pendulum()), ("continuous_mountain_car", ContinuousMountainCar()),
                       ("continuous_mountain_car_asymmetric", ContinuousMountainCar(min_action=-1.0, max_action=3.0))):
@@ -704,7 +712,7 @@ def main():
     ck.out("MuJoCo and Unitree G1 trajectories (unbounded observation boxes; NaN-freeness depends on the physics engine)",
            "float32 overflow / rounding inside reward arithmetic: reward magnitude is bounded over the reals (|r| < FLT_MAX) for the classic envs; MuJoCo / G1 reward finiteness is not claimed",
            "CartPole observations of terminal successors beyond the one step() replaces by a reset state",
-           "float32 rounding inside RescaleObservation's affine map and inside jax.random.uniform's post-processing of reset states (REAL mode there); RescaleObservation over a Box with infinite bounds (CartPole) has no meaningful image",
+           "float32 rounding inside RescaleObservation's affine map for configurations other than the default environments x target ranges listed under wrap.rescale_fp32 (those are bit-precise; symbolic-limit configurations are REAL) and inside jax.random.uniform's post-processing of reset states (REAL mode there); RescaleObservation over a Box with infinite bounds (CartPole) has no meaningful image",
            "observations of wrapper stacks whose wrappers do not transform observations are the inner observation (delegation itself is C13)")
     only = os.environ.get("C02_ONLY", "").split(",") if os.environ.get("C02_ONLY") else None
     heavy = ck.thorough
